@@ -4,6 +4,7 @@ From Coq Require Import Lia ZifyN ZifyNat ZifyBool.
 
 Ltac inv H := inversion H; subst; clear H.
 
+(* ---------------- RegisterBidirectional: structure ---------------- *)
 Lemma register_bd_inv : forall cfg q ca m e rs w,
   register_bd cfg q ca m e = Ok (rs, w) ->
   process_bd_req cfg q e = Ok rs /\ process_c2s_wrapper cfg q (Some rs) ca m = Ok w /\ c_send_ok cfg = true.
@@ -19,9 +20,498 @@ Qed.
 Lemma same_view : forall cfg q ca m e rs w,
   register_bd cfg q ca m e = Ok (rs, w) ->
   f_resp w = Some rs /\ (c_auth cfg = true -> f_signed w = Some rs) /\
+  (c_auth cfg = false -> f_signed w = None) /\
   f_payload w = q_payload q /\ f_secret w = q_secret q.
 Proof.
   intros. apply register_bd_inv in H. destruct H as [_ [H _]].
   unfold process_c2s_wrapper in H. destruct (blen (q_secret q) <? 8); try discriminate.
-  inv H. simpl. repeat split; auto. intros ->. reflexivity.
+  inv H. simpl. repeat split; auto; intros ->; reflexivity.
+Qed.
+
+(* ---------------- the subnet override ---------------- *)
+Lemma subnet_override_spec : forall cfg c e r rs,
+  subnet_override cfg c e r = Ok rs ->
+  rs = r \/
+  (c_enforce cfg = true /\ excluded cfg (r_v4 r) = false /\
+   exists gate rest i s ip,
+     rand_int 10000 (e_chunks e) = DOk (gate, rest) /\
+     choose (e_fnum e) (e_fden e) (subnets_for cfg (p_transport c)) = Some (i, s) /\
+     s_v4net s = true /\ rand_host s rest = DOk ip /\
+     ((p_transport c = transport_min /\ gate < c_rmin cfg /\
+       rs = mkResp (Some ip) (r_v6 r) (r_port r) (r_params r)) \/
+      (p_transport c = transport_prefix /\ p_disable_ov c = false /\ gate < c_rprefix cfg /\
+       exists sp, nth i (e_subnet_params e) None = Some sp /\
+                  rs = mkResp (Some ip) (r_v6 r) (Some (s_port s)) (Some sp)))).
+Proof.
+  intros cfg c e r rs H. unfold subnet_override in H.
+  destruct (c_enforce cfg) eqn:En; simpl in H; [|inv H; auto].
+  destruct (excluded cfg (r_v4 r)) eqn:Ex; [inv H; auto|].
+  destruct (rand_int 10000 (e_chunks e)) as [[gate rest]| |] eqn:G; try discriminate; [|inv H; auto].
+  destruct (p_transport c =? transport_min) eqn:T1.
+  - apply N.eqb_eq in T1.
+    destruct (gate <? c_rmin cfg) eqn:Gt; [|inv H; auto].
+    destruct (choose (e_fnum e) (e_fden e) (c_min_subnets cfg)) as [[i s]|] eqn:Ch; [|inv H; auto].
+    destruct (s_v4net s) eqn:V4; simpl in H; [|inv H; auto].
+    destruct (rand_host s rest) as [ip| |] eqn:Hs; try discriminate; [|inv H; auto].
+    inv H. right. repeat split; auto.
+    exists gate, rest, i, s, ip. unfold subnets_for. rewrite T1. simpl.
+    repeat split; auto. left. repeat split; auto. lia.
+  - destruct (p_transport c =? transport_prefix) eqn:T4; [|inv H; auto].
+    apply N.eqb_eq in T4.
+    destruct (p_disable_ov c) eqn:Dis; simpl in H; [inv H; auto|].
+    destruct (gate <? c_rprefix cfg) eqn:Gt; [|inv H; auto].
+    destruct (choose (e_fnum e) (e_fden e) (c_prefix_subnets cfg)) as [[i s]|] eqn:Ch; [|inv H; auto].
+    destruct (s_v4net s) eqn:V4; simpl in H; [|inv H; auto].
+    destruct (rand_host s rest) as [ip| |] eqn:Hs; try discriminate; [|inv H; auto].
+    destruct (nth i (e_subnet_params e) None) as [sp|] eqn:Sp; [|inv H; auto].
+    inv H. right. repeat split; auto.
+    exists gate, rest, i, s, ip. unfold subnets_for. rewrite T4. simpl.
+    repeat split; auto. right. repeat split; auto. lia. exists sp. auto.
+Qed.
+
+Lemma subnet_override_shape : forall cfg c e r rs,
+  subnet_override cfg c e r = Ok rs ->
+  r_v6 rs = r_v6 r /\
+  (r_v4 rs = r_v4 r \/ exists ip, r_v4 rs = Some ip) /\
+  (forall port, r_port r = Some port -> exists port', r_port rs = Some port') /\
+  (p_disable_ov c = true -> r_params rs = r_params r).
+Proof.
+  intros cfg c e r rs H. apply subnet_override_spec in H.
+  destruct H as [->|H]; [repeat split; eauto|].
+  destruct H as [_ [_ [gate [rest [i [s [ip [_ [_ [_ [_ H]]]]]]]]]]].
+  destruct H as [H|H].
+  - destruct H as [_ [_ ->]]. simpl. repeat split; eauto.
+  - destruct H as [_ [Dis [_ [sp [_ ->]]]]]. simpl. repeat split; eauto. congruence.
+Qed.
+
+Lemma base_response_spec : forall cfg c e r,
+  base_response cfg c e = Ok r ->
+  select4 c e = Some (r_v4 r) /\ select6 c e = Some (r_v6 r) /\
+  (exists port, r_port r = Some port /\
+     (if supports_rand c e then e_dstport e else Some 443) = Some port) /\
+  (p_disable_ov c = true -> r_params r = None) /\
+  (c_has_ov cfg = false -> r_params r = None).
+Proof.
+  intros cfg c e r H. unfold base_response in H.
+  destruct (select4 c e) as [v4|] eqn:S4; try discriminate.
+  destruct (select6 c e) as [v6|] eqn:S6; try discriminate.
+  destruct (negb (existsb (N.eqb (p_transport c)) (c_transports cfg))); try discriminate.
+  destruct (negb (e_parse_ok e)); try discriminate.
+  destruct (if c_has_ov cfg && negb (p_disable_ov c) then e_ov e else Some None) as [params|] eqn:Ov; try discriminate.
+  destruct (if supports_rand c e then e_dstport e else Some 443) as [port|] eqn:P; try discriminate.
+  inv H. simpl. repeat split; auto.
+  - exists port. auto.
+  - intros D. rewrite D, andb_false_r in Ov. inv Ov. auto.
+  - intros D. rewrite D in Ov. simpl in Ov. inv Ov. auto.
+Qed.
+
+Lemma process_bd_req_inv : forall cfg q e rs,
+  process_bd_req cfg q e = Ok rs ->
+  exists c r, q_payload q = Some c /\ base_response cfg c e = Ok r /\ subnet_override cfg c e r = Ok rs.
+Proof.
+  unfold process_bd_req. intros cfg q e rs H.
+  destruct (q_payload q) as [c|]; try discriminate.
+  destruct (base_response cfg c e) as [r| |] eqn:B; try discriminate.
+  exists c, r. auto.
+Qed.
+
+(* shape of a successful response *)
+Lemma bd_resp_shape : forall cfg q e rs c,
+  process_bd_req cfg q e = Ok rs -> q_payload q = Some c ->
+  (exists port, r_port rs = Some port) /\
+  (p_v4 c = true -> exists a, r_v4 rs = Some a) /\
+  select6 c e = Some (r_v6 rs).
+Proof.
+  intros cfg q e rs c H Hq. apply process_bd_req_inv in H.
+  destruct H as [c' [r [Hq' [B S]]]]. rewrite Hq in Hq'. inv Hq'.
+  apply base_response_spec in B. destruct B as [S4 [S6 [[port [P _]] _]]].
+  apply subnet_override_shape in S. destruct S as [V6 [V4 [Po _]]].
+  split; [eapply Po; eauto|]. split; [|rewrite V6; auto].
+  intros V. destruct V4 as [V4|[ip V4]]; [|eauto].
+  rewrite V4. unfold select4 in S4. rewrite V in S4.
+  destruct (e_sel4 e) as [[a rr]|]; try discriminate. inv S4. eauto.
+Qed.
+
+(* ---------------- the station applies exactly the returned view ---------------- *)
+Lemma mk_reg_spec : forall sc f c v6 sv,
+  mk_reg sc f c v6 = Some sv ->
+  sv_v6 sv = v6 /\
+  exists ipov own own_port,
+    ip_override (f_resp f) v6 = Some ipov /\
+    st_new_reg sc v6 (effective_params c (f_resp f)) = Some (own, own_port, sv_params sv) /\
+    sv_phantom sv = match ipov with Some x => x | None => own end /\
+    sv_port sv = match f_resp f with
+                 | Some r => match r_port r with Some d => d mod 65536 | None => own_port end
+                 | None => own_port
+                 end.
+Proof.
+  unfold mk_reg. intros sc f c v6 sv H.
+  destruct (ip_override (f_resp f) v6) as [ipov|] eqn:I; try discriminate.
+  destruct (st_new_reg sc v6 (effective_params c (f_resp f))) as [[[own own_port] parsed]|] eqn:N; try discriminate.
+  destruct (negb ((blen (station_addr f) =? 4) || (blen (station_addr f) =? 16))); try discriminate.
+  destruct (is4 match ipov with Some x => x | None => own end && negb (is4 (station_addr f))); try discriminate.
+  inv H. simpl. split; auto. exists ipov, own, own_port. auto.
+Qed.
+
+Lemma station_in : forall sc f svs sv,
+  station sc f = Some svs -> In sv svs ->
+  exists c, f_payload f = Some c /\
+    ((p_v4 c = true /\ mk_reg sc f c false = Some sv) \/ (p_v6 c = true /\ mk_reg sc f c true = Some sv)).
+Proof.
+  unfold station. intros sc f svs sv H Hin.
+  destruct (f_payload f) as [c|]; [|inv H; destruct Hin].
+  exists c. split; auto.
+  destruct (p_v4 c) eqn:P4; destruct (p_v6 c) eqn:P6; simpl in H.
+  - destruct (st_v4 sc && is4 (station_addr f)).
+    + destruct (mk_reg sc f c false) as [r4|] eqn:M4; try discriminate.
+      destruct (st_v6 sc).
+      * destruct (mk_reg sc f c true) as [r6|] eqn:M6; try discriminate. inv H.
+        simpl in Hin. destruct Hin as [<-|[<-|[]]]; auto.
+      * inv H. destruct Hin as [<-|[]]; auto.
+    + destruct (st_v6 sc).
+      * destruct (mk_reg sc f c true) as [r6|] eqn:M6; try discriminate. inv H.
+        destruct Hin as [<-|[]]; auto.
+      * inv H. destruct Hin.
+  - destruct (st_v4 sc && is4 (station_addr f)).
+    + destruct (mk_reg sc f c false) as [r4|] eqn:M4; try discriminate.
+      inv H. destruct Hin as [<-|[]]; auto.
+    + inv H. destruct Hin.
+  - destruct (st_v6 sc).
+    + destruct (mk_reg sc f c true) as [r6|] eqn:M6; try discriminate. inv H.
+      destruct Hin as [<-|[]]; auto.
+    + inv H. destruct Hin.
+  - inv H. destruct Hin.
+Qed.
+
+Lemma station_applies : forall cfg q ca m e rs w c sc svs sv,
+  register_bd cfg q ca m e = Ok (rs, w) -> q_payload q = Some c ->
+  station sc w = Some svs -> In sv svs ->
+  (exists port, r_port rs = Some port /\ sv_port sv = port mod 65536) /\
+  (sv_v6 sv = true -> r_v6 rs = Some (sv_phantom sv)) /\
+  (sv_v6 sv = false -> exists a, r_v4 rs = Some a /\ (a <> 0 -> sv_phantom sv = be4 a)) /\
+  (exists own own_port, st_new_reg sc (sv_v6 sv) (effective_params c (Some rs)) = Some (own, own_port, sv_params sv)).
+Proof.
+  intros cfg q ca m e rs w c sc svs sv H Hq Hst Hin.
+  pose proof (same_view _ _ _ _ _ _ _ H) as [Fr [_ [_ [Fp _]]]].
+  apply register_bd_inv in H. destruct H as [B _].
+  destruct (bd_resp_shape _ _ _ _ _ B Hq) as [[port Hp] [H4 H6]].
+  destruct (station_in _ _ _ _ Hst Hin) as [c' [Hc M]]. rewrite Fp, Hq in Hc. inv Hc.
+  destruct M as [[P4 M]|[P6 M]]; apply mk_reg_spec in M;
+    destruct M as [Hv [ipov [own [own_port [I [N [Ph Po]]]]]]]; rewrite Fr in *; rewrite Hp in Po; rewrite Hv.
+  - (* the IPv4 registration *)
+    split; [exists port; auto|]. split; [discriminate|]. split; [|eauto].
+    intros _. destruct (H4 P4) as [a Ha]. exists a. split; auto.
+    intros Hne. unfold ip_override in I. rewrite Ha in I.
+    apply N.eqb_neq in Hne. rewrite Hne in I. inv I. auto.
+  - (* the IPv6 registration *)
+    split; [exists port; auto|]. split; [|split; [discriminate|eauto]].
+    intros _. unfold select6 in H6. rewrite P6 in H6.
+    destruct (e_sel6 e) as [[b rr]|]; try discriminate. inv H6.
+    unfold ip_override in I. rewrite <- H0 in I.
+    destruct (negb (blen b =? 16)); try discriminate. destruct (is4 b); try discriminate.
+    inv I. rewrite Ph. reflexivity.
+Qed.
+
+(* ---------------- forged fields ---------------- *)
+Lemma forged_fields_discarded_bd : forall cfg q ca m e,
+  register_bd cfg q ca m e = register_bd cfg (clear_forged q) ca m e.
+Proof. intros. reflexivity. Qed.
+
+Lemma forged_fields_discarded_uni : forall cfg q ca m,
+  register_uni cfg q ca m = register_uni cfg (clear_forged q) ca m.
+Proof. intros. reflexivity. Qed.
+
+Lemma uni_forwards_no_response : forall cfg q ca m w,
+  register_uni cfg q ca m = Ok w -> f_resp w = None /\ f_signed w = None.
+Proof.
+  unfold register_uni, process_c2s_wrapper, send. intros cfg q ca m w H.
+  destruct (blen (q_secret q) <? 8); try discriminate.
+  destruct (c_send_ok cfg); try discriminate. inv H. simpl.
+  destruct (c_auth cfg); auto.
+Qed.
+
+(* ---------------- overrides only if allowed ---------------- *)
+Lemma overrides_only_if_allowed : forall cfg q ca m e rs w c,
+  register_bd cfg q ca m e = Ok (rs, w) -> q_payload q = Some c -> p_disable_ov c = true ->
+  r_params rs = None.
+Proof.
+  intros cfg q ca m e rs w c H Hq D. apply register_bd_inv in H. destruct H as [B _].
+  apply process_bd_req_inv in B. destruct B as [c' [r [Hq' [B S]]]]. rewrite Hq in Hq'. inv Hq'.
+  apply base_response_spec in B. destruct B as [_ [_ [_ [Pn _]]]].
+  apply subnet_override_shape in S. destruct S as [_ [_ [_ Pp]]].
+  rewrite (Pp D). auto.
+Qed.
+
+(* whatever message reaches it, the station keeps the client's parameters when overrides are disabled *)
+Lemma station_respects_disable : forall sc f c svs sv,
+  station sc f = Some svs -> In sv svs -> f_payload f = Some c -> p_disable_ov c = true ->
+  exists own own_port, st_new_reg sc (sv_v6 sv) (p_params c) = Some (own, own_port, sv_params sv).
+Proof.
+  intros sc f c svs sv Hst Hin Hp D.
+  destruct (station_in _ _ _ _ Hst Hin) as [c' [Hc M]]. rewrite Hp in Hc. inv Hc.
+  assert (effective_params c' (f_resp f) = p_params c') as E.
+  { unfold effective_params. destruct (f_resp f) as [r|]; auto. destruct (r_params r); auto. rewrite D. auto. }
+  destruct M as [[_ M]|[_ M]]; apply mk_reg_spec in M; destruct M as [Hv [ipov [own [op [_ [N _]]]]]];
+    rewrite E in N; rewrite Hv; eauto.
+Qed.
+
+(* ---------------- randomness ---------------- *)
+Lemma rand_loop_lt : forall max bits chunks r rest, rand_loop max bits chunks = DOk (r, rest) -> r < max.
+Proof.
+  induction chunks; simpl; intros; try discriminate.
+  destruct (be_val a mod 2 ^ bits <? max) eqn:E.
+  - inv H. lia.
+  - eauto.
+Qed.
+
+Lemma rand_int_lt : forall max chunks r rest, rand_int max chunks = DOk (r, rest) -> r < max.
+Proof.
+  unfold rand_int. intros max chunks r rest H.
+  destruct (max =? 0) eqn:E0; try discriminate.
+  destruct (max =? 1) eqn:E1.
+  - inv H. lia.
+  - eapply rand_loop_lt; eauto.
+Qed.
+
+Lemma wf_subnet_size : forall s, wf_subnet s = true ->
+  subnet_size s = 2 ^ (32 - s_ones s) /\ 1 <= subnet_size s /\ s_base s + subnet_size s <= two32.
+Proof.
+  unfold wf_subnet, subnet_size. intros s H.
+  rewrite !andb_true_iff in H. destruct H as [[[[[_ H3] H2] H1] H0] _].
+  apply N.leb_le in H3, H2. apply N.ltb_lt in H1. apply N.eqb_eq in H0.
+  assert (P : two32 = 2 ^ s_ones s * 2 ^ (32 - s_ones s)).
+  { rewrite <- N.pow_add_r. replace (s_ones s + (32 - s_ones s)) with 32 by lia. reflexivity. }
+  assert (0 < 2 ^ (32 - s_ones s)) by (apply N.neq_0_lt_0, N.pow_nonzero; lia).
+  assert (2 <= 2 ^ s_ones s).
+  { replace 2 with (2 ^ 1) at 1 by reflexivity. apply N.pow_le_mono_r; lia. }
+  assert (L : 2 ^ (32 - s_ones s) < two32) by nia.
+  rewrite N.mod_small by exact L.
+  split; auto. split; [lia|].
+  apply N.mod_divide in H0; [|lia]. destruct H0 as [k Hk].
+  remember (2 ^ (32 - s_ones s)) as X. remember (2 ^ s_ones s) as Y.
+  rewrite Hk in H1 |- *. rewrite P in H1 |- *.
+  assert (k < Y) by nia. nia.
+Qed.
+
+Lemma rand_host_in_subnet : forall s chunks ip,
+  wf_subnet s = true -> rand_host s chunks = DOk ip -> in_subnet s ip.
+Proof.
+  intros s chunks ip W H. destruct (wf_subnet_size s W) as [Sz [S1 S2]].
+  unfold rand_host in H. destruct (rand_int (subnet_size s) chunks) as [[r rest]| |] eqn:R; try discriminate.
+  inv H. apply rand_int_lt in R. unfold in_subnet. rewrite <- Sz.
+  rewrite N.mod_small by lia. lia.
+Qed.
+
+(* ---------------- the weighted choice ---------------- *)
+Lemma choose_from_spec : forall fnum fden total l acc i0 i s,
+  choose_from fnum fden total acc i0 l = Some (i, s) -> acc * fden <= fnum * total ->
+  exists k, i = (i0 + k)%nat /\ nth_error l k = Some s /\ 0 < s_weight s.
+Proof.
+  induction l as [|x r IH]; simpl; intros acc i0 i s H Hacc; try discriminate.
+  destruct (fnum * total <? (acc + s_weight x) * fden) eqn:E.
+  - inv H. exists 0%nat. split; [lia|]. split; auto. apply N.ltb_lt in E. nia.
+  - apply N.ltb_ge in E. destruct (IH _ _ _ _ H E) as [k [A [B C]]].
+    exists (S k). split; [lia|]. auto.
+Qed.
+
+Lemma choose_spec : forall fnum fden l i s,
+  choose fnum fden l = Some (i, s) -> nth_error l i = Some s /\ 0 < s_weight s.
+Proof.
+  unfold choose. intros. apply choose_from_spec in H; [|lia].
+  destruct H as [k [-> [A B]]]. auto.
+Qed.
+
+Fixpoint sumw (l : list subnet) : N := match l with [] => 0 | s :: r => s_weight s + sumw r end.
+
+Lemma total_weight_sumw : forall l, total_weight l = sumw l.
+Proof. induction l; simpl; auto. Qed.
+
+Lemma sumw_firstn_le : forall l i s, nth_error l i = Some s -> sumw (firstn i l) + s_weight s <= sumw l.
+Proof.
+  induction l; destruct i; simpl; intros; try discriminate.
+  - inv H. lia.
+  - specialize (IHl _ _ H). lia.
+Qed.
+
+Lemma choose_from_hits : forall total l acc i0 i s,
+  nth_error l i = Some s -> 0 < s_weight s -> 0 < total ->
+  choose_from (acc + sumw (firstn i l)) total total acc i0 l = Some ((i0 + i)%nat, s).
+Proof.
+  induction l as [|x r IH]; destruct i; simpl; intros; try discriminate.
+  - inv H. replace (acc + 0) with acc by lia.
+    assert (acc * total <? (acc + s_weight s) * total = true) as -> by (apply N.ltb_lt; nia).
+    f_equal. f_equal. lia.
+  - assert ((acc + (s_weight x + sumw (firstn i r))) * total <? (acc + s_weight x) * total = false) as ->
+      by (apply N.ltb_ge; nia).
+    replace (acc + (s_weight x + sumw (firstn i r))) with ((acc + s_weight x) + sumw (firstn i r)) by lia.
+    rewrite (IH _ _ _ s); auto. f_equal. f_equal. lia.
+Qed.
+
+(* every subnet with a positive weight is chosen for some draw f = fnum/fden in [0,1) *)
+Lemma every_positive_weight_reachable : forall l i s,
+  nth_error l i = Some s -> 0 < s_weight s ->
+  exists fnum fden, fnum < fden /\ choose fnum fden l = Some (i, s).
+Proof.
+  intros l i s Hn Hw. exists (sumw (firstn i l)), (total_weight l).
+  pose proof (sumw_firstn_le _ _ _ Hn). pose proof (total_weight_sumw l) as E.
+  split; [lia|]. unfold choose.
+  pose proof (choose_from_hits (total_weight l) l 0 0 i s Hn Hw) as C. simpl in C. apply C. lia.
+Qed.
+
+(* the loop before the fix: whatever the draw, the last subnet wins *)
+Lemma choose_last_from_app : forall fnum fden total l acc i0 cur s,
+  fnum * total < (acc + sumw l + s_weight s) * fden ->
+  choose_last_from fnum fden total acc i0 (l ++ [s]) cur = Some ((i0 + length l)%nat, s).
+Proof.
+  induction l as [|x r IH]; simpl; intros.
+  - assert (fnum * total <? (acc + s_weight s) * fden = true) as -> by (apply N.ltb_lt; nia).
+    f_equal. f_equal. lia.
+  - rewrite IH by (replace (acc + s_weight x + sumw r + s_weight s) with (acc + (s_weight x + sumw r) + s_weight s) by lia; auto).
+    f_equal. f_equal. lia.
+Qed.
+
+Lemma sumw_app : forall a b, sumw (a ++ b) = sumw a + sumw b.
+Proof. induction a; simpl; intros; auto. rewrite IHa. lia. Qed.
+
+Lemma old_loop_only_last : forall fnum fden l s,
+  fnum < fden -> 0 < sumw (l ++ [s]) ->
+  choose_last fnum fden (l ++ [s]) = Some (length l, s).
+Proof.
+  intros. unfold choose_last. pose proof (total_weight_sumw (l ++ [s])) as E.
+  rewrite choose_last_from_app; auto.
+  rewrite sumw_app in *. simpl in *. nia.
+Qed.
+
+(* ---------------- where a substituted phantom comes from ---------------- *)
+Lemma wf_cfg_subnets : forall cfg t s, wf_cfg cfg = true -> In s (subnets_for cfg t) -> wf_subnet s = true.
+Proof.
+  unfold wf_cfg, subnets_for. intros cfg t s W Hin. apply andb_true_iff in W. destruct W as [W1 W2].
+  rewrite forallb_forall in W1, W2.
+  destruct (t =? transport_min); auto. destruct (t =? transport_prefix); auto.
+Qed.
+
+Lemma override_inside_configured_subnet : forall cfg q ca m e rs w c a,
+  wf_cfg cfg = true ->
+  register_bd cfg q ca m e = Ok (rs, w) -> q_payload q = Some c -> r_v4 rs = Some a ->
+  (p_v4 c = true /\ exists rnd, e_sel4 e = Some (a, rnd)) \/
+  (c_enforce cfg = true /\
+   exists s, In s (subnets_for cfg (p_transport c)) /\ 0 < s_weight s /\ in_subnet s a).
+Proof.
+  intros cfg q ca m e rs w c a W H Hq Ha. apply register_bd_inv in H. destruct H as [B _].
+  apply process_bd_req_inv in B. destruct B as [c' [r [Hq' [B S]]]]. rewrite Hq in Hq'. inv Hq'.
+  apply base_response_spec in B. destruct B as [S4 _].
+  apply subnet_override_spec in S.
+  assert (forall i s ip rest, choose (e_fnum e) (e_fden e) (subnets_for cfg (p_transport c')) = Some (i, s) ->
+            rand_host s rest = DOk ip ->
+            exists s, In s (subnets_for cfg (p_transport c')) /\ 0 < s_weight s /\ in_subnet s ip) as K.
+  { intros i s ip rest Ch Rh. apply choose_spec in Ch. destruct Ch as [Nth Wt].
+    apply nth_error_In in Nth. exists s. split; [auto|]. split; [auto|].
+    eapply rand_host_in_subnet; eauto. eapply wf_cfg_subnets; eauto. }
+  destruct S as [->|S].
+  - left. unfold select4 in S4. destruct (p_v4 c') eqn:P4.
+    + destruct (e_sel4 e) as [[a' rnd]|]; try discriminate. inv S4. rewrite Ha in H0. inv H0. eauto.
+    + inv S4. congruence.
+  - destruct S as [En [_ [gate [rest [i [s [ip [_ [Ch [_ [Rh S]]]]]]]]]]].
+    right. split; auto.
+    assert (a = ip) as ->.
+    { destruct S as [S|S].
+      - destruct S as [_ [_ ->]]. simpl in Ha. inv Ha. auto.
+      - destruct S as [_ [_ [_ [sp [_ ->]]]]]. simpl in Ha. inv Ha. auto. }
+    eapply K; eauto.
+Qed.
+
+(* ---------------- exclusions ---------------- *)
+Lemma excluded_never_replaced : forall cfg q ca m e rs w c a rnd,
+  register_bd cfg q ca m e = Ok (rs, w) -> q_payload q = Some c ->
+  p_v4 c = true -> e_sel4 e = Some (a, rnd) -> excluded cfg (Some a) = true ->
+  r_v4 rs = Some a /\ base_response cfg c e = Ok rs.
+Proof.
+  intros cfg q ca m e rs w c a rnd H Hq P4 Sel Ex. apply register_bd_inv in H. destruct H as [B _].
+  apply process_bd_req_inv in B. destruct B as [c' [r [Hq' [B S]]]]. rewrite Hq in Hq'. inv Hq'.
+  pose proof (base_response_spec _ _ _ _ B) as [S4 _].
+  unfold select4 in S4. rewrite P4, Sel in S4. inv S4.
+  apply subnet_override_spec in S. destruct S as [->|S].
+  - split; auto.
+  - destruct S as [_ [Ex' _]]. rewrite <- H0 in Ex'. congruence.
+Qed.
+
+(* ---------------- reachability at the level of the whole request ---------------- *)
+Definition set_random (e : env) (chunks : list bytes) (fnum fden : N) : env :=
+  mkEnv (e_sel4 e) (e_sel6 e) (e_parse_ok e) (e_dstport e) (e_ov e) chunks fnum fden (e_subnet_params e).
+
+Definition zero_chunks : list bytes := [[0; 0]; [0; 0; 0; 0]].
+
+Lemma rand_int_zero : forall max rest, 1 <= max -> exists rest', rand_int max ([0; 0; 0; 0] :: rest) = DOk (0, rest').
+Proof.
+  intros. unfold rand_int. destruct (max =? 0) eqn:E0; [apply N.eqb_eq in E0; lia|].
+  destruct (max =? 1) eqn:E1; [eauto|].
+  simpl. replace (be_val [0; 0; 0; 0]) with 0 by reflexivity.
+  rewrite N.mod_0_l by (apply N.pow_nonzero; lia).
+  assert (0 <? max = true) as -> by (apply N.ltb_lt; lia). eauto.
+Qed.
+
+Lemma reachable_min : forall cfg q c e r i s,
+  wf_cfg cfg = true -> q_payload q = Some c -> p_transport c = transport_min ->
+  c_enforce cfg = true -> 0 < c_rmin cfg ->
+  base_response cfg c e = Ok r -> excluded cfg (r_v4 r) = false ->
+  nth_error (c_min_subnets cfg) i = Some s -> 0 < s_weight s ->
+  exists fnum fden, fnum < fden /\
+    process_bd_req cfg q (set_random e zero_chunks fnum fden) =
+      Ok (mkResp (Some (s_base s)) (r_v6 r) (r_port r) (r_params r)) /\
+    in_subnet s (s_base s).
+Proof.
+  intros cfg q c e r i s W Hq T En Rm B Ex Nth Wt.
+  destruct (every_positive_weight_reachable _ _ _ Nth Wt) as [fnum [fden [Lt Ch]]].
+  exists fnum, fden. split; auto.
+  assert (Ws : wf_subnet s = true).
+  { eapply wf_cfg_subnets with (t := transport_min); eauto. unfold subnets_for. simpl. eapply nth_error_In; eauto. }
+  destruct (wf_subnet_size s Ws) as [Sz [S1 S2]].
+  split.
+  - unfold process_bd_req. rewrite Hq.
+    assert (base_response cfg c (set_random e zero_chunks fnum fden) = base_response cfg c e) as -> by reflexivity.
+    rewrite B. unfold subnet_override. rewrite En, Ex. simpl negb. cbv iota.
+    unfold set_random at 1. simpl e_chunks. unfold zero_chunks.
+    replace (rand_int 10000 [[0; 0]; [0; 0; 0; 0]]) with (@DOk (N * list bytes) (0, [[0; 0; 0; 0]])) by reflexivity.
+    rewrite T. simpl (transport_min =? transport_min).
+    assert (0 <? c_rmin cfg = true) as -> by (apply N.ltb_lt; lia).
+    simpl e_fnum. simpl e_fden. rewrite Ch.
+    unfold wf_subnet in Ws. rewrite !andb_true_iff in Ws. destruct Ws as [[[[[Ws _] _] _] _] _]. rewrite Ws. simpl negb. cbv iota.
+    unfold rand_host. destruct (rand_int_zero (subnet_size s) [] S1) as [rest' ->].
+    rewrite N.add_0_r, N.mod_small by (unfold two32 in *; lia). reflexivity.
+  - unfold in_subnet. rewrite <- Sz. lia.
+Qed.
+
+Lemma reachable_prefix : forall cfg q c e r i s sp,
+  wf_cfg cfg = true -> q_payload q = Some c -> p_transport c = transport_prefix ->
+  p_disable_ov c = false ->
+  c_enforce cfg = true -> 0 < c_rprefix cfg ->
+  base_response cfg c e = Ok r -> excluded cfg (r_v4 r) = false ->
+  nth_error (c_prefix_subnets cfg) i = Some s -> 0 < s_weight s ->
+  nth i (e_subnet_params e) None = Some sp ->
+  exists fnum fden, fnum < fden /\
+    process_bd_req cfg q (set_random e zero_chunks fnum fden) =
+      Ok (mkResp (Some (s_base s)) (r_v6 r) (Some (s_port s)) (Some sp)) /\
+    in_subnet s (s_base s).
+Proof.
+  intros cfg q c e r i s sp W Hq T Dis En Rm B Ex Nth Wt Sp.
+  destruct (every_positive_weight_reachable _ _ _ Nth Wt) as [fnum [fden [Lt Ch]]].
+  exists fnum, fden. split; auto.
+  assert (Ws : wf_subnet s = true).
+  { eapply wf_cfg_subnets with (t := transport_prefix); eauto. unfold subnets_for. simpl. eapply nth_error_In; eauto. }
+  destruct (wf_subnet_size s Ws) as [Sz [S1 S2]].
+  split.
+  - unfold process_bd_req. rewrite Hq.
+    assert (base_response cfg c (set_random e zero_chunks fnum fden) = base_response cfg c e) as -> by reflexivity.
+    rewrite B. unfold subnet_override. rewrite En, Ex. simpl negb. cbv iota.
+    unfold set_random at 1. simpl e_chunks. unfold zero_chunks.
+    replace (rand_int 10000 [[0; 0]; [0; 0; 0; 0]]) with (@DOk (N * list bytes) (0, [[0; 0; 0; 0]])) by reflexivity.
+    rewrite T. simpl (transport_prefix =? transport_min). simpl (transport_prefix =? transport_prefix). cbv iota.
+    rewrite Dis. simpl negb.
+    assert (0 <? c_rprefix cfg = true) as -> by (apply N.ltb_lt; lia). simpl andb. cbv iota.
+    simpl e_fnum. simpl e_fden. rewrite Ch.
+    unfold wf_subnet in Ws. rewrite !andb_true_iff in Ws. destruct Ws as [[[[[Ws _] _] _] _] _]. rewrite Ws. simpl negb. cbv iota.
+    unfold rand_host. destruct (rand_int_zero (subnet_size s) [] S1) as [rest' ->].
+    simpl e_subnet_params. rewrite Sp.
+    rewrite N.add_0_r, N.mod_small by (unfold two32 in *; lia). reflexivity.
+  - unfold in_subnet. rewrite <- Sz. lia.
 Qed.
